@@ -262,6 +262,25 @@ def r08_4(facts, res):
                         f["file"], f["line"], {}))
 
 
+def r08_6(facts, res):
+    """XPath 1.0 3.7: white space may be used before and after every token, also before the first and after the last one.
+    query() hands the text to expr::parse and refuses a non-empty rest: either parse consumes white space on both sides, or
+    query trims the text before parsing and the rest before testing it."""
+    st = res.rule("R08-6", instances=1)
+    q = facts.fn("xml_xpath::query")
+    trims = [m for m in walk(q["body"]) if m.get("k") == "MethodCall" and m["m"] in ("trim", "trim_start", "trim_end", "trim_start_matches", "trim_end_matches", "trim_matches")]
+    lead = any(any(x.get("k") == "Path" and x.get("name") == "expr" for x in walk(m.get("recv", {}))) for m in trims)
+    trail = any(any(x.get("k") == "Path" and x.get("name") == "rest" for x in walk(m.get("recv", {}))) for m in trims)
+    p = facts.fn("xml_xpath::expr::parse")
+    in_parse = sum(1 for m in walk(p["body"]) if m.get("k") == "Path" and str(m.get("path", "")).endswith("multispace0")) >= 2
+    ok = in_parse or (lead and trail)
+    res.oblige(1, ok)
+    if not ok:
+        res.add(Finding("R08-6", "query|outer-white-space", "query(): white space %s is not accepted (query(\" //y\") is a syntax error, "
+                        "query(\"//y \") leaves a rest)" % " and ".join(w for w, have in (("before the first token", lead), ("after the last token", trail)) if not have),
+                        q["file"], q["line"], {}))
+
+
 def run(facts, tier):
     import xpath10
     res = Result("C08")
@@ -286,6 +305,7 @@ def run(facts, tier):
     r08_5(facts, res)
     res.notes.extend(ex.notes)
     res.functions_analysed = len(rows)
+    r08_6(facts, res)
     return res
 
 
